@@ -10,12 +10,16 @@
   Proved end to end for the first half of the property: a program with an `.external` declaration of a name not bound
   earlier assembles (with or without debug symbols) to an object file whose loading is refused
   (`unresolved_external_refuses_load`).
+  Proved for the second half (`link_fills_external`, Lemmas/LinkPatch.lean): when file A holds the relocation entry `(A, K)` of
+  an external `K` and file B defines `K` at `V`, the symbol-table part of `link` can only succeed with an image that holds `V`
+  at `A` (the label fold produces the patch `(A, V)` and no other patch at `A`; patches at other addresses do not disturb it).
   Not proved: that every `.fill EXT` statement of a program owns a relocation entry at its address (the converse
-  direction) and the composition over a whole link; both are checked by the oracle on generated programs.
+  direction of `rel_entries_are_external`); checked by the oracle on generated programs.
 -/
 import Lc3V.Model.Asm
 import Lc3V.Props.C29
 import Lc3V.Lemmas.TwoPass
+import Lc3V.Lemmas.LinkPatch
 set_option linter.unusedSimpArgs false
 namespace Lc3V.C21
 open Lc3V
@@ -173,8 +177,33 @@ where
       subst this; subst h
       exact h2
 
+/-- **after linking in a file that defines the label, the word holds the label's address.**  File A declares `K` external and has
+    a relocation entry `(A, K)` (its `.fill K` at address `A`); file B defines `K` at address `V` (first entry for `K` in its
+    table, not external).  With the merged relocation table holding one entry per address and the cell `A` lying inside a block
+    of the merged image, the symbol-table part of `link` succeeds only with a result whose image holds `V` at `A`. -/
+theorem link_fills_external (at_ bt : SymTab) (blocks : Blocks) (r : ObjFile) (K : Key) (ad bd : SymData) (A : W)
+    (pre post : List (Key × SymData))
+    (hA : (A, K) ∈ bt.rel.foldl (fun m e => relInsert m e.1 e.2) at_.rel)
+    (hUA : (bt.rel.foldl (fun m e => relInsert m e.1 e.2) at_.rel).Pairwise (fun x y => x.1 ≠ y.1))
+    (hl : lookupKey at_.labels K = some ad) (hext : ad.ext = true)
+    (hb : bt.labels = pre ++ (K, bd) :: post) (hpre : ∀ e ∈ pre, (e.1 == K) = false) (hdef : bd.ext = false)
+    (hu : blocks.Pairwise (fun x y => x.1 ≠ y.1)) (hcell : (cell blocks A).isSome = true)
+    (h : linkSyms at_ bt blocks = .ok r) : cell r.blocks A = some (some bd.addr) := by
+  unfold linkSyms at h
+  dsimp only at h
+  rw [hb] at h
+  cases hf : (pre ++ (K, bd) :: post).foldlM (fun st e => linkLabel st (e.1, { e.2 with srcStart := satAdd e.2.srcStart (linkShift at_ bt) }))
+      ⟨at_.labels, bt.rel.foldl (fun m e => relInsert m e.1 e.2) at_.rel, []⟩ with
+  | error e => rw [hf] at h; cases h
+  | ok stf =>
+    rw [hf] at h
+    cases h
+    obtain ⟨h1, h2⟩ := linkFold_resolves (fun e => (e.1, { e.2 with srcStart := satAdd e.2.srcStart (linkShift at_ bt) }))
+      (fun _ => rfl) (fun _ => ⟨rfl, rfl⟩) _ stf pre post K ad bd A hpre hl hext hdef hA hUA (fun r hr => by cases hr) hf
+    exact patch_fold A bd.addr stf.relocs blocks hu hcell (fun r hr => h2 r hr) (Or.inr h1)
+
 def obligations : List Lean.Name :=
-  [``rel_entries_are_external, ``fill_records_candidate, ``externals_keep_symbol_table, ``external_symbols_nonempty,
+  [``link_fills_external, ``Lc3V.linkFold_resolves, ``Lc3V.patch_fold, ``rel_entries_are_external, ``fill_records_candidate, ``externals_keep_symbol_table, ``external_symbols_nonempty,
    ``load_refused, ``link_resolves, ``patch_sets_word, ``external_declared, ``unresolved_external_refuses_load]
 
 end Lc3V.C21
